@@ -10,19 +10,24 @@ Fixpoint bytes_leb (a b : bytes) : bool :=
   | _ :: _, [] => false
   | x :: a', y :: b' => if N.ltb x y then true else if N.ltb y x then false else bytes_leb a' b'
   end.
-Fixpoint insert_by_path (c : cent) (l : list cent) : list cent :=
+Fixpoint insert_by_path (c : bytes * sx) (l : list (bytes * sx)) : list (bytes * sx) :=
   match l with
   | [] => [c]
-  | d :: r => if bytes_leb (ce_path c) (ce_path d) then c :: l else d :: insert_by_path c r
+  | d :: r => if bytes_leb (fst c) (fst d) then c :: l else d :: insert_by_path c r
   end.
 
 (* what the sequential receiver notifies: one notification per changed entry; files whose
    content is fetched are always reported as additions (requestAsyncFileData), other entries
-   with the kind the diff gave them (0 add, 1 modify) *)
-Definition expected_notifs (cs : list cent) : list sx :=
+   with the kind the diff gave them (0 add, 1 modify); one deletion (2) for every top-level entry
+   of the prior destination that the source lacks (what is below a deleted directory is not
+   reported).  Extra prior entries are only generated at the top level. *)
+Definition expected_notifs (cs : list cent) (view prior : list node) : list sx :=
   let changed := filter (fun c => negb (is_same (ce_kind c))) cs in
-  map (fun c => SL [SN (if is_need (ce_kind c) || ce_added c then 0 else 1)%N; SB (ce_path c); SN 1%N])
-      (fold_right insert_by_path [] changed).
+  let ch := map (fun c => (ce_path c,
+                           SL [SN (if is_need (ce_kind c) || ce_added c then 0 else 1)%N; SB (ce_path c); SN 1%N])) changed in
+  let gone := filter (fun n => negb (existsb (fun m => bytes_eqb (node_name m) (node_name n)) view)) prior in
+  let del := map (fun n => (node_name n, SL [SN 2%N; SB (node_name n); SN 1%N])) gone in
+  map snd (fold_right insert_by_path [] (ch ++ del)).
 
 Record srec := { sr_send : N; sr_recv : N; sr_eq : bool; sr_digest : bytes; sr_reqs : sx; sr_notifs : sx;
                  sr_ov : list N; sr_scrib : sx; sr_leaks : N }.
@@ -52,7 +57,7 @@ Definition run_0801 (input impl : sx) : sx :=
     | Some view, Some prior, Some recs =>
       let cs := classify_all chunk view prior in
       let reqs := SL (map of_nat (expected_reqs cs)) in
-      let notifs := SL (expected_notifs cs) in
+      let notifs := SL (expected_notifs cs view prior) in
       let model := SL (map (fun r => SL [SN 0; SN 0; SN 1; SB (sr_digest r); reqs; notifs;
                                          SN 0; SN 0; SN 0; SN 0; sr_scrib r; SN 0]%N) recs) in
       let each := forallb (fun r => N.eqb (sr_send r) 0 && N.eqb (sr_recv r) 0 && sr_eq r
